@@ -68,6 +68,16 @@
 (* which must reproduce the numbers emitted here, and the ring tables made *)
 (* from these lists (rings = Q shells for a tolerance below every gap).    *)
 (*                                                                         *)
+(* OUT OF THIS MODULE'S REACH (covered elsewhere in the C03 check):         *)
+(*  - the object state (limit, peaks, ring table) under histories of       *)
+(*    public calls, calls left by an exception and re-entrant requests     *)
+(*    included: specs/HklObject.tla (this module models ONE call);         *)
+(*  - NEAR-degenerate metrics (angles 1e-4 .. 0.05 degrees off 90 / 120,   *)
+(*    edges 1e-6 relative off each other, at edges up to 30 A): an integer *)
+(*    form with such ratios does not fit 32 bits; the harness judges these *)
+(*    float cells against its own reciprocal metric at a tolerance         *)
+(*    relative to d-star (c03_lib.near_cells / judge_float_list).          *)
+(*                                                                         *)
 (* BOUNDS   Forms / Limits / Centrings are chosen in the .cfg files        *)
 (* (quick: diagonal 1..3, off-diagonal -1..1; thorough: 1..4 / -2..2;      *)
 (* named lattices; TIE: dyadic diagonal; CAP: the |l| < 200 guard;         *)
